@@ -38,6 +38,29 @@ class Runner:
         p = self.world.project(self.sid, (self.fx["c1"], self.fx["c2"]), (self.fx["e1"], self.fx["e2"]))
         return {"st": p["st"], "cfg": p["cfg"], "idx": p["idx"]}
 
+    def internal(self):
+        """projection of the manager's in-memory objects (Layer B drift detection only)"""
+        m = self.world.manager
+        try:
+            svc = m._service_dict.get(self.sid)
+            reg = svc.websocket.cid if svc is not None else 0
+            snap = int(svc.service_meta["state"]) if svc is not None else 0
+            waiting = [x[0].websocket.cid for x in getattr(m, "_waiting_dict", {}).get(self.sid, [])]
+            if not isinstance(reg, int) or not all(isinstance(x, int) for x in waiting):
+                return None
+            return {"reg": reg, "snap": snap, "waiting": waiting}
+        except Exception:
+            return None
+
+    def tick(self):
+        e = {"e": "tick", "d": self.proj()}
+        i = self.internal()
+        if i is not None:
+            e["i"] = i
+        else:
+            self.no_internal = True
+        self.ev.append(e)
+
     def on_event(self, kind, ws, data):
         c = ws.cid
         if c == "x":          # the connection of the other service id: not part of this service's trace
@@ -121,15 +144,15 @@ class Runner:
                 return
         elif k == "tick":
             await fs.spin(1)
-            self.ev.append({"e": "tick", "d": self.proj()})
+            self.ev.append({"e": "spin", "d": self.proj()})
             return
         elif k == "settle":
             await fs.settle()
-            self.ev.append({"e": "tick", "d": self.proj()})
+            self.tick()
             return
         if not fine:
             await fs.settle()
-            self.ev.append({"e": "tick", "d": self.proj()})
+            self.tick()
 
     async def finish(self):
         await fs.settle()
@@ -150,7 +173,7 @@ class Runner:
             self.ev.append({"e": "timer", "d": self.proj()})
             self.world.proxy.fire()
         await fs.settle()
-        self.ev.append({"e": "tick", "d": self.proj()})
+        self.tick()
         await self.world.kill()
         self.world.restart()
         self.world.on_event = None
@@ -283,6 +306,32 @@ def main(argv_tier=None, replay_path=None):
         v = verdicts[t["tid"]]
         if not v["ok"]:
             rej.append({"key": v["clause"], "trace": t, "verdict": v})
+    # ---- Layer B: the same executions against the implementation-shaped model (drift only)
+    drift = []
+    btr = []
+    for t in traces:
+        if t["fine"] or any(e["e"] in ("xopen", "xclose", "noreturn") for e in t["ev"]) or not verdicts[t["tid"]]["ok"]:
+            continue
+        evs = []
+        for e in t["ev"]:
+            if e["e"] == "restart":
+                break
+            evs.append(e)
+        if any(e["e"] == "tick" and "i" not in e for e in evs):
+            continue
+        btr.append({"tid": t["tid"], "ev": evs})
+    nb = 600 if tr == "quick" else 6000
+    if len(btr) > nb:
+        btr = random.Random(seed()).sample(btr, nb)
+    bver, bagg = validate_traces("Trace_ServerImpl", btr, dfs=True, name="implB",
+                                 consts='CONSTANTS Conn = {1,2,3}\nMaxSend = 99\nReq = {"cfg1","cfg2","up1","up2","search"}\n')
+    bysid = {t["tid"]: t for t in traces}
+    for b in btr:
+        v = bver[b["tid"]]
+        if not v["ok"]:
+            drift.append({"schedule": bysid[b["tid"]]["schedule"], "step": v["step"], "event": v["clause"]})
+    for d in drift[:10]:
+        print("DRIFT property=C12 execution is not a behaviour of ServerImpl (Layer B): step %d event %s schedule=%s" % (d["step"], d["event"], d["schedule"]))
     viol, seen = classify(PROP, rej)
     vio_out = []
     for x in viol:
@@ -305,6 +354,8 @@ def main(argv_tier=None, replay_path=None):
         "rule": "schedules of external events (open/send/close/timer, optionally explicit loop iterations) for up to 3 connections "
                 "emitted by TLC from MC_OverlapEnv (exhaustive small bounds + -simulate), plus 4 regression schedules; "
                 "non-trivial = a later connection was told to wait AND some request was acknowledged",
+        "layerB_traces_validated": len(btr), "layerB_trace_states": bagg.get("distinct", 0),
+        "drift": drift[:20], "drift_count": len(drift),
         "samples": [{"schedule": t["schedule"], "fine": t["fine"], "events": t["ev"]} for t in traces[4:6]],
         "model": "Layer B spec/fe/ServerImpl.tla checked against Serialised/NoRollback/WriteOnce/AckDurable; "
                  "Layer A spec/fe/Overlap.tla via Trace_Overlap",
